@@ -9,7 +9,7 @@ open Trion Trion.SegLayout
 
 /-! ## the evaluator handed to the front end -/
 
-theorem frontEval_complete {t : Table} {a a' : Arg} (h : frontEval t a = .complete a') : evalIn t a = .ok (.complete a') := by
+theorem frontEval_complete_inv {t : Table} {a a' : Arg} (h : frontEval t a = .complete a') : evalIn t a = .ok (.complete a') := by
   obtain ⟨ev, hev⟩ := evalIn_ok t a
   rw [hev]
   simp only [frontEval, hev] at h
@@ -104,7 +104,7 @@ theorem conv_ok_deps (t : Table) (l : Bool) : ∀ (ks : List Front.Kind) (pos : 
             obtain ⟨q1, q2⟩ := evalArg_ok_cases he hd
             rcases hs with hs | hs
             · simp only [hk, if_true] at hs
-              exact evalIn_complete_idents (frontEval_complete q1) s hs
+              exact evalIn_complete_idents (frontEval_complete_inv q1) s hs
             · exact ih _ _ _ _ _ _ _ _ _ _ h (by omega) s hs
 
 /-- a conversion that stops with `Deferred{cause}` has met `cause` in an evaluated operand, and the table lacks it -/
